@@ -417,6 +417,39 @@ func suiteC11(r *Run) {
 		if rec.Code != 404 {
 			r.Violate("http-server/unknown-path-not-404", "404 for unknown paths", sprintf("unknown path answered %d", rec.Code), c, strconv.Itoa(rec.Code))
 		}
+		// other spellings that are not a registered path: a trailing slash, empty or dot segments. The
+		// request is valid in every other respect; no application code may run for it.
+		for vi, mp := range []string{mUnary, mSStream, mBidi} {
+			pre, last := mp[:strings.LastIndex(mp, "/")], mp[strings.LastIndex(mp, "/"):]
+			variants := []string{mp + "/", pre + "/" + last, "/nope/.." + mp, pre + "/." + last, "/" + mp, mp + "/."}
+			vp := variants[(i+vi)%len(variants)]
+			ran := 0
+			svr := &scriptServer{
+				unary:   func(ctx context.Context, req *Msg) (*Msg, error) { ran++; return &Msg{}, nil },
+				sstream: func(req *Msg, ss grpchantesting.TestService_ServerStreamServer) error { ran++; return nil },
+				bidi:    func(bs grpchantesting.TestService_BidiStreamServer) error { ran++; return nil },
+			}
+			hs := httpgrpc.NewServer()
+			grpchantesting.RegisterTestServiceServer(hs, svr)
+			body, ct := marshalDet(in), "application/x-protobuf"
+			if mp != mUnary {
+				body, ct = frame(marshalDet(in), false), "application/x-httpgrpc-proto+v1"
+			}
+			req := httptest.NewRequest("POST", "http://mem.test/", bytes.NewReader(body))
+			req.URL.Path = vp
+			req.RequestURI = vp
+			req.Header.Set("Content-Type", ct)
+			rec := httptest.NewRecorder()
+			hs.ServeHTTP(rec, req)
+			r.Eval("odd-path "+vp, true)
+			r.Count("odd-path")
+			cc := map[string]interface{}{"op": "unregistered-spelling", "path": vp, "content_type": ct}
+			if ran != 0 {
+				r.Violate("http-server/handler-ran-for-unregistered-path", "404 for unknown paths, without running application code", sprintf("POST %q (not a registered path) ran the handler %d time(s), HTTP %d", vp, ran, rec.Code), cc, strconv.Itoa(rec.Code))
+			} else if rec.Code == 200 {
+				r.Violate("http-server/unknown-path-not-404", "404 for unknown paths", sprintf("POST %q answered 200", vp), cc, "200")
+			}
+		}
 	}
 }
 
